@@ -541,4 +541,6 @@ def r_clean_paired(ctx):
     ctx.floor("R-CLEAN-PAIRED", "accepting paths of clean_buffer_levels", n, 1)
 
 
-RULES = [r_buf_encoding, r_buf_pairing, r_sort_net, r_buf_report, lambda ctx: task_rules.r_drain(ctx, only=("buffers",)), r_clean_paired]
+RULES = [r_buf_encoding, r_buf_pairing, r_sort_net, r_buf_report, lambda ctx: task_rules.r_drain(ctx, only=("buffers",)), r_clean_paired,
+         # the reported level sequence is read from the solution: the renderers / exporters leave it as the solver reported it
+         lambda ctx: __import__("rules.exports", fromlist=["x"]).r_report_readonly(ctx)]
